@@ -779,13 +779,13 @@ Definition bpol (b : bpolicy) (id occ : nat) : bool :=
 Definition adversary (k : vkind) (rid rocc : nat) (b : bpolicy) : oracle :=
   mk_oracle k
     (fun i o => if andb (Nat.eqb i rid) (Nat.eqb o rocc) then Some "" else None)
-    (bpol b) (fun _ _ => 2) (fun i o => Z.of_nat (i * 1000 + o)) (fun _ _ => k).
+    (bpol b) (fun _ _ => 2) (fun _ _ => 1%Z) (fun _ _ => k).
 
 Definition family (ir : list stmt) : list oracle :=
   let ids := ids_of_list ir in
   let kinds := ([KInt; KFloat; KStr; KList; KNone] ++ map kind_of_ty (tys_of_list ir))%list in
   let pols := (BAllTrue :: BAllFalse :: map BTrueExcept ids ++ map BFalseExcept ids)%list in
-  flat_map (fun k => flat_map (fun rid => flat_map (fun rocc => map (adversary k rid rocc) pols) [0; 1; 2]) ids) kinds.
+  flat_map (fun b => flat_map (fun k => flat_map (fun rid => map (fun rocc => adversary k rid rocc b) [1; 0; 2]) ids) kinds) pols.
 
 Definition is_nil {A} (l : list A) : bool := match l with [] => true | _ => false end.
 
@@ -814,7 +814,7 @@ Qed.
 
 (* every entry of a table is decided: proved atomic, or refuted by a counter-execution *)
 Definition decided (E : env) (tbl : list (string * list stmt)) : bool :=
-  forallb (fun p => xorb (checks_first E (snd p)) (refutable E (snd p))) tbl.
+  forallb (fun p => if checks_first E (snd p) then true else refutable E (snd p)) tbl.
 
 Definition failing (E : env) (tbl : list (string * list stmt)) : list string :=
   map fst (filter (fun p => negb (checks_first E (snd p))) tbl).
@@ -837,9 +837,8 @@ Proof.
   destruct Hin as [[n ir] [Hn Hf]]. cbn [fst] in Hn. subst n.
   apply filter_In in Hf. destruct Hf as [Hin Hc]. cbn [snd] in Hc. apply negb_true_iff in Hc.
   unfold decided in Hd. rewrite forallb_forall in Hd. specialize (Hd _ Hin). cbn [snd] in Hd.
-  rewrite Hc in Hd. cbn [xorb] in Hd.
-  assert (Hd' : refutable E ir = true) by (destruct (refutable E ir); [reflexivity | discriminate]).
-  destruct (refutable_sound E ir Hd') as [a [H1 H2]]. exists ir, a. auto.
+  rewrite Hc in Hd.
+  destruct (refutable_sound E ir Hd) as [a [H1 H2]]. exists ir, a. auto.
 Qed.
 
 (* every program of a table outside the excluded names that raises leaves the state unchanged *)
